@@ -3,7 +3,7 @@ and scaled by powers of ten in C long double (x87 extended precision: 64-bit sig
 nearest-even), the result is then converted to binary64 - a second rounding.  Used by checks/C14.py as the model
 voice of tonumber (it must reproduce the compiled library bit for bit) and to decide whether a result that is not
 correctly rounded is the known double-rounding defect (the model predicts exactly that wrong value) or something
-else (a VIOLATION).  Normal range only (no subnormal / overflow handling): the caller skips those."""
+else (a VIOLATION).  The final conversion handles gradual underflow and overflow (None = infinity); the intermediate long double range is never left by decimal texts of binary64 values."""
 from fractions import Fraction
 
 
@@ -21,8 +21,19 @@ def rnd(fr, prec):
     if 2 * r > den or (2 * r == den and q & 1): q += 1
     return Fraction(q, 1) / (Fraction(2) ** sh) if sh >= 0 else Fraction(q) * (1 << (-sh))
 
-def dbl(fr):   # to binary64 (normal range only here)
-    return rnd(fr, 53)
+def dbl(fr):
+    """round a non-negative Fraction to binary64, ties to even: 53 bits in the normal range, the 2^-1074 grid below
+    2^-1022 (gradual underflow), infinity (None) from the overflow threshold on"""
+    if fr == 0:
+        return fr
+    if fr < Fraction(1, 2 ** 1022):
+        q, r = divmod(fr.numerator * 2 ** 1074, fr.denominator)
+        if 2 * r > fr.denominator or (2 * r == fr.denominator and q & 1):
+            q += 1
+        return Fraction(q, 2 ** 1074)
+    r = rnd(fr, 53)
+    return None if r >= 2 ** 1024 else r
+
 
 def str2num_x87(s):
     """strconv.str2num, decimal branch, in x87 extended precision (64-bit significand)"""
@@ -57,5 +68,7 @@ def str2num_x87(s):
         if inv: scale = L(1 / scale)
         num = L(num * scale)
     r = dbl(num)
+    if r is None:
+        return None                      # overflow: infinity
     return -r if neg else r
 
